@@ -102,3 +102,9 @@ Print Assumptions C17_source_host_port_subcomponent.
 Theorem C17_source_with_port : forall (B : backend) (u : url) (p : portarg), gen_with_port B u p = with_port B u p.
 Proof. exact gen_with_port_ok. Qed.
 Print Assumptions C17_source_with_port.
+
+(** ... and split_netloc, where a written port is validated (ASCII digits, 0..65535) *)
+From Yarl Require Import Model.Parse Generated.NetlocGen Proofs.GenSplitProofs.
+Theorem C17_source_split_netloc : forall n : str, gen_split_netloc n = split_netloc n.
+Proof. exact gen_split_netloc_ok. Qed.
+Print Assumptions C17_source_split_netloc.
